@@ -1483,12 +1483,19 @@ func (c *DefaultCtx) renderExtensions(bind any) {
 // Req returns a convenience type whose API is limited to operations
 // on the incoming request.
 func (c *DefaultCtx) Req() Req {
+	if c.req == nil || c.req.ctx != c {
+		// the ctx was copied by value into a custom ctx: bind the api to the copy that is in use
+		c.req = &DefaultReq{ctx: c}
+	}
 	return c.req
 }
 
 // Res returns a convenience type whose API is limited to operations
 // on the outgoing response.
 func (c *DefaultCtx) Res() Res {
+	if c.res == nil || c.res.ctx != c {
+		c.res = &DefaultRes{ctx: c}
+	}
 	return c.res
 }
 
